@@ -105,7 +105,7 @@ func keepRe(re string) (func(Atom) bool, func(*Event) bool) {
 
 func (c *Check) walkRegion(rule string, fn *ssa.Function, entry *ssa.BasicBlock, keep string, stop func(*ssa.BasicBlock) bool) []Path {
 	ka, ke := keepRe(keep)
-	w := Walk(c.P, fn, WalkConfig{Entry: entry, KeepAtom: ka, KeepEvent: ke, Memo: true, StopBlock: stop, MaxPaths: 60000})
+	w := Walk(c.P, fn, WalkConfig{Entry: entry, KeepAtom: ka, KeepEvent: ke, Memo: true, StopBlock: stop, MaxPaths: 60000, Inline: smallHelper})
 	if w.Err != nil {
 		c.Undecided(rule, QualName(fn), "path walk failed: "+w.Err.Error(), c.P.Pos(fn.Pos()))
 		return nil
@@ -787,14 +787,18 @@ func ruleIntegerKeyFlag(c *Check, rule string) {
 			ok := len(fl) == 1 && fl[0].Args[1] == param(fn, 1)
 			if ok {
 				atom := "(" + fl[0].Res + "#0 & const:" + ik + ")"
-				r := p.State.RelOf("int", atom, "const:0")
-				want := "const:false"
-				if r == GT {
-					want = "const:true"
-				} else if r&GT != 0 {
-					ok = false
+				if ib.Args[2] == "("+atom+" > const:0)" || ib.Args[2] == "("+atom+" != const:0)" {
+					// the flag test itself is passed on
+				} else {
+					r := p.State.RelOf("int", atom, "const:0")
+					want := "const:false"
+					if r == GT {
+						want = "const:true"
+					} else if r&GT != 0 {
+						ok = false
+					}
+					ok = ok && ib.Args[2] == want
 				}
-				ok = ok && ib.Args[2] == want
 			}
 			if !ok {
 				bad++
@@ -871,4 +875,25 @@ func ruleCleanDisappeared(c *Check, rule string) {
 	if okc && nRem > 0 {
 		c.Ok(rule, name, "every call compares the whole waiting set with the listing and removes the missing names; there is no early exit", c.P.Pos(fn.Pos()))
 	}
+}
+
+// anchorFuncs are functions the rules refer to by name: they stay calls.
+var anchorFuncs = map[string]bool{
+	fnSendOnce: true, fnLoadOnce: true, fnMainToSh: true, fnShToMain: true, fnReadDBI: true,
+	"syncer.(*Syncer).instanceID": true, "syncer.(*Syncer).generationID": true, "syncer.(*Syncer).deletedCutoff": true,
+	"syncer.(*InstanceSet).Contains": true, "syncer.(*InstanceSet).Add": true, "syncer.(*InstanceSet).Remove": true,
+	"syncer.(*InstanceSet).Done": true, "syncer.(*InstanceSet).CleanDisappeared": true, "syncer.NewInstanceSet": true,
+	"syncer.NewNativeIterator": true, "syncer.dupSortHackEncode": true, "syncer.dupSortHackDecode": true,
+}
+
+// smallHelper: a small loop-free function of the syncer package that no rule
+// anchors on is transparent (so extracting a block into a helper changes nothing).
+func smallHelper(f *ssa.Function, depth int) bool {
+	if depth > 2 || f.Blocks == nil || len(f.Blocks) > 25 || anchorFuncs[QualName(f)] {
+		return false
+	}
+	if shortPkg(fnPkgPath(f)) != "syncer" {
+		return false
+	}
+	return true
 }
